@@ -204,6 +204,54 @@ def runW (filter : List String) : World → List (EnvW × Op) → World
 def swappedA (old : Option ASecret) : ASecret :=
   ⟨(old.map (·.type)).getD connType, some "intruder-uid", [], [("admin-token", "s3cr3t")]⟩
 
+/-! ### the claim reconciler around the propagator (claim/reconciler.go, default options) -/
+
+/-- the bound XR as the claim reconciler reads it -/
+structure BoundXR where
+  uid : String
+  ref : Option Key       -- its writeConnectionSecretToRef
+  ready : Bool           -- Ready=True
+  published : Nat := 0   -- its status.connectionDetails.lastPublishedTime (0 = unset); read by nothing
+  deriving Repr, Inhabited
+
+structure ClaimIn where
+  me : String
+  cns : String
+  cref : Option String   -- its writeConnectionSecretToRef
+  deleted : Bool
+  xr : Option BoundXR
+  propagated : Nat := 0  -- its status.connectionDetails.lastPublishedTime (0 = unset); read by nothing
+  deriving Repr, Inhabited
+
+structure ClaimOut where
+  out : Out
+  stamped : Bool         -- the claim's lastPublishedTime is set to now
+  deriving Repr, Inhabited
+
+/-- one reconcile of a claim, as far as secrets are concerned. A claim being deleted unpublishes
+with the NopConnectionUnpublisher: no call is addressed to any secret (Kubernetes garbage
+collection removes what the claim controls). A live claim propagates once its XR is Ready. -/
+def claimRec (e : EnvW) (w : World) (c : ClaimIn) : World × ClaimOut :=
+  if c.deleted then (w, ⟨.nop, false⟩)
+  else match c.xr with
+    | none => (w, ⟨.nop, false⟩)
+    | some x =>
+      if !x.ready then (w, ⟨.nop, false⟩)
+      else
+        let r := stepW [] e w (.prop c.me c.cns c.cref x.uid x.ref)
+        (r.1, ⟨r.2, r.2.published⟩)
+
+/-- SecretConnectionDetailsFetcher.FetchConnection for an owner referencing `ref`; `fault` =
+the class of the error its Get answers with; `none` = error -/
+def fetchA (w : World) (ref : Option Key) (fault : Option ECls) : Option Data :=
+  match ref with
+  | none => some []
+  | some k =>
+    match fault with
+    | some .notFound => some []       -- client.IgnoreNotFound: no details (yet)
+    | some _ => none
+    | none => some (((wget w k).map (·.data)).getD [])
+
 /-! ### the flow of connection details through the composers -/
 
 /-- ExtractConfigsFromComposedTemplate + connectionDetailType: an unset type (`""`) is derived
@@ -229,7 +277,11 @@ structure Tmpl where
   deriving Repr, Inhabited
 
 def tmplFieldAt (t : Tmpl) (p : String) : Option String :=
-  if p = "metadata.name" then some t.cdName else none
+  fieldReader (fun p => if p = "metadata.name" then some (.str t.cdName) else none) p
+
+/-- the template as one reconcile sees it: its connection secret read by `fetchA` -/
+def Tmpl.fetched (cdName : String) (ctrl : Ctrl) (cfgs : List Cfg) (r : Option Data) : Tmpl :=
+  { cdName := cdName, ctrl := ctrl, secret := r, fetchErr := r.isNone, cfgs := cfgs }
 
 /-- details of the templates in order, later templates overriding earlier ones; none = error -/
 def foldDetails : List Tmpl → Data → Option Data
